@@ -155,6 +155,10 @@ pub fn replay_history(init: &R, hist: &[Act]) -> Result<(Term, R), String> {
                 if &after != m2 {
                     return Err(format!("{} : succeeded, term is now {} but should be {}", what(), after.show(), m2.show()));
                 }
+                let held = R::of_term(&t).kids.len();
+                if held != m2.kids.len() {
+                    return Err(format!("{} : succeeded, but the term now holds {held} components where the value {} has {} (an equal component was stored twice)", what(), m2.show(), m2.kids.len()));
+                }
                 m = m2.clone();
             }
             (Err(()), Err(())) => {
@@ -289,7 +293,8 @@ pub fn replay_case(c: &J) -> Result<(), String> {
         let init = R::from_json(&c["init"]);
         let cs: Vec<R> = c["list"].as_array().map(|a| a.iter().map(R::from_json).collect()).unwrap_or_default();
         let mut t = init.build();
-        let built: Vec<Term> = cs.iter().map(|c| c.build()).collect();
+        let key = c["key"].as_u64().unwrap_or(0);
+        let built: Vec<Term> = narsese::verif_hooks::with_seed_script(&vec![key; 64], || cs.iter().map(|c| c.build()).collect()).0;
         let real = match c["supply"].as_u64() {
             Some(1) => t.push_components(built.into_iter().filter(|_| true)).map_err(|_| ()),
             Some(2) => {
@@ -307,10 +312,11 @@ pub fn replay_case(c: &J) -> Result<(), String> {
             }
             _ => Err(()),
         };
+        let held = R::of_term(&t).kids.len();
         return match (real, expect) {
-            (Ok(()), Ok(m)) if after == m => Ok(()),
+            (Ok(()), Ok(m)) if after == m && held == m.kids.len() => Ok(()),
             (Err(()), Err(())) if after == init.canon() => Ok(()),
-            _ => Err(format!("push_components on {} disagrees with the reference model (term now {})", init.show(), after.show())),
+            _ => Err(format!("push_components on {} disagrees with the reference model (term now {}, holding {held} components)", init.show(), after.show())),
         };
     }
     let init = R::from_json(&c["init"]);
@@ -451,8 +457,30 @@ pub fn run(run: &Run) {
         wide_lists.push(vec![a.clone(), x.clone()]);
         wide_lists.push(vec![x.clone(), x.clone()]);
     }
+    // targets that already hold a nested unordered compound / symmetric statement, and pushes of
+    // the SAME value built the other way round (reversed insertion order, swapped operands):
+    // uniting must recognise it
+    let mut mirror_inits: Vec<(R, Vec<Vec<R>>)> = vec![];
+    {
+        let (x, y, z) = (R::word("ma"), R::atom(Tag::DVar, "mb"), R::word("mc"));
+        let set_tags: Vec<Tag> = COMPOUND_TAGS.iter().copied().filter(|t| t.shape() == Shape::Set).collect();
+        let mut mirrors: Vec<(R, R)> = vec![];
+        for &u in &set_tags {
+            mirrors.push((R::node(u, vec![x.clone(), y.clone(), z.clone()]), R::node(u, vec![z.clone(), y.clone(), x.clone()])));
+        }
+        for s in [Tag::Sim, Tag::Equiv, Tag::EquivConc] {
+            mirrors.push((R::pair(s, x.clone(), y.clone()), R::pair(s, y.clone(), x.clone())));
+        }
+        for &t in &set_tags {
+            for (m1, m2) in &mirrors {
+                let init = R::node(t, vec![m1.clone(), R::word("k0")]);
+                mirror_inits.push((init, vec![vec![m2.clone()], vec![m2.clone(), a.clone()], vec![m1.clone()], vec![m2.clone(), m1.clone()]]));
+            }
+        }
+    }
     // and a compound of the target's constructor holding the target's own components
     let mut push_cases = 0u64;
+    let mut targets: Vec<(R, Vec<Vec<R>>)> = vec![];
     for init in &inits {
         let mut lists = wide_lists.clone();
         if !init.tag.is_atom() {
@@ -460,11 +488,23 @@ pub fn run(run: &Run) {
             lists.push(vec![init.clone(), a.clone()]);
             lists.push(vec![R { kids: vec![R::word("C"), R::word("D")], ..init.clone() }, a.clone()]);
         }
-        for cs in &lists {
+        targets.push((init.clone(), lists));
+    }
+    targets.extend(mirror_inits);
+    // the pushed components are built under each of KEYS hash keys (the target under key 0), so
+    // that an equal nested set arrives with a different iteration order than the one already held
+    const KEYS: u64 = 6;
+    run.bound("push_component_hash_keys", json!(KEYS));
+    for (init, lists) in &targets {
+        for (cs, key) in lists.iter().flat_map(|cs| (0..KEYS).map(move |k| (cs, k))) {
+            // only lists that hold an unordered compound can look different under another key
+            if key > 0 && !cs.iter().any(|c| c.any(&|x| x.tag.shape() == Shape::Set && x.kids.len() > 1)) {
+                continue;
+            }
             push_cases += 1;
             let mut t = init.build();
             let before = R::canon_of_term(&t);
-            let built: Vec<Term> = cs.iter().map(|c| c.build()).collect();
+            let built: Vec<Term> = narsese::verif_hooks::with_seed_script(&vec![key; 64], || cs.iter().map(|c| c.build()).collect()).0;
             // the same list supplied through iterators of other shapes (size_hint (0, Some n),
             // (0, None)) must give the same outcome and post-state as the Vec
             for mode in 1..3 {
@@ -485,7 +525,7 @@ pub fn run(run: &Run) {
                     let shown: Vec<String> = cs.iter().map(|c| c.show()).collect();
                     run.violation(
                         &format!("start {} ; push_components({shown:?}) supplied through a {} iterator gives {:?} / {} but through a Vec gives {:?} / {}", init.show(), if mode == 1 { "filter" } else { "from_fn" }, r2, R::canon_of_term(&t2).show(), r1, R::canon_of_term(&t1).show()),
-                        json!({"op": "push_once", "init": init.to_json(), "list": cs.iter().map(|c| c.to_json()).collect::<Vec<_>>(), "supply": mode}),
+                        json!({"op": "push_once", "init": init.to_json(), "list": cs.iter().map(|c| c.to_json()).collect::<Vec<_>>(), "supply": mode, "key": key}),
                         &[],
                     );
                 }
@@ -505,8 +545,9 @@ pub fn run(run: &Run) {
                 }
                 _ => Err(()),
             };
+            let held = R::of_term(&t).kids.len();
             let bad = match (&real, &expect) {
-                (Ok(Ok(())), Ok(m)) => if &after != m { Some(format!("succeeded, term is {} but should be {}", after.show(), m.show())) } else { None },
+                (Ok(Ok(())), Ok(m)) => if &after != m { Some(format!("succeeded, term is {} but should be {}", after.show(), m.show())) } else if held != m.kids.len() { Some(format!("succeeded, but the term now holds {held} components where the united value {} has {} (an equal component was stored twice)", m.show(), m.kids.len())) } else { None },
                 (Ok(Err(())), Err(())) => if after != before { Some("failed but changed the term".to_string()) } else { None },
                 (Ok(Ok(())), Err(())) => Some(format!("succeeded (term now {}), should fail", after.show())),
                 (Ok(Err(())), Ok(m)) => Some(format!("failed, should succeed and give {}", m.show())),
@@ -514,7 +555,7 @@ pub fn run(run: &Run) {
             };
             if let Some(b) = bad {
                 let shown: Vec<String> = cs.iter().map(|c| c.show()).collect();
-                run.violation(&format!("start {} ; push_components({shown:?}) : {b}", init.show()), json!({"op": "push_once", "init": init.to_json(), "list": cs.iter().map(|c| c.to_json()).collect::<Vec<_>>()}), &[]);
+                run.violation(&format!("start {} ; push_components({shown:?}) : {b}", init.show()), json!({"op": "push_once", "init": init.to_json(), "list": cs.iter().map(|c| c.to_json()).collect::<Vec<_>>(), "key": key}), &[]);
             }
         }
     }
